@@ -133,19 +133,17 @@ fn median(mut price_list: Vec<Price>) -> Option<Price> {
     let lower_price = price_list
         .get(lower_index)
         .expect("`lower_index` is a valid index");
-    // Avoid overflow by halving both values first.
-    let half_high = higher_price
-        .checked_div(2)
-        .expect("can't fail as divisor is not zero");
-    let half_low = lower_price
-        .checked_div(2)
-        .expect("can't fail as divisor is not zero");
+    // Avoid overflow by halving both values first. Halve towards negative infinity (not towards
+    // zero) so that the correction below is also right for negative prices: for all integers,
+    // `floor(a / 2) + floor(b / 2) + (a and b both odd) == floor((a + b) / 2)`.
+    let half_high = Price::new(higher_price.get().div_euclid(2));
+    let half_low = Price::new(lower_price.get().div_euclid(2));
     let sum = half_high
         .checked_add(half_low)
-        .expect("can't fail as both operands are <= MAX/2");
+        .expect("can't fail as both operands are halved");
     // If `higher_price` and `lower_price` are both odd, we rounded down twice when halving them,
     // so add 1 to the sum.
-    let median = if higher_price.get() % 2 == 1 && lower_price.get() % 2 == 1 {
+    let median = if higher_price.get().rem_euclid(2) == 1 && lower_price.get().rem_euclid(2) == 1 {
         sum.checked_add(Price::new(1))
             .expect("can't fail as we rounded down twice while halving the prices")
     } else {
